@@ -103,7 +103,7 @@ def execute(case, prefix, collect=None):
         holder['node'] = node
         obs = None
         if case['observer']:
-            obs = ObserverConn(sched, 'c3')
+            obs = N.ObserverConn(sched, 'c3')
             node.dispatcher.add_connection(obs)
             node.request_msg(obs, ('activate', None, None))
             obs.lines.clear()
@@ -127,25 +127,6 @@ def execute(case, prefix, collect=None):
     if node is not None:
         node.close()
     return x, viol, sched
-
-
-class ObserverConn:
-    def __init__(self, sched, label):
-        self.sched, self.label = sched, label
-        self.lines = []
-
-    def send_reply(self, msg):
-        from frappy.protocol.interface import encode_msg_frame
-        self.sched.point('send', self.label)
-        line = encode_msg_frame(*msg)
-        self.lines.append(line)
-        self.sched.log.append(('send', self.label, line))
-
-    def __hash__(self):
-        return 3
-
-    def __eq__(self, other):
-        return self is other
 
 
 def judge(case, sched, x, holder):
